@@ -1,5 +1,6 @@
 (* Props/C10.v — property C10: answers do not depend on query history or stream position.
-   Only statements, closed by [exact]; proofs live in Proofs/C10{Base,Tree,Elf,Units,Lines,Main,Top,Final}.v.
+   Only statements, closed by [exact]; proofs live in
+   Proofs/C10{Base,Tree,Nodes,Elf,Units,Lines,Main,Top,Nav,Nav2,Nav3,NavTop,Final}.v.
 
    Model  Model/C10Machine.v: [step : state -> op -> state * answer], the transliteration of the caches
           (_cu_offsets_map/_cu_cache, _diemap/_dielist, _abbrevtable_cache, _linetable_cache,
@@ -9,21 +10,17 @@
           over iterator positions alone (no caches, no cursors, no objects).
    Inv    Proofs/C10Base.v [Inv F s]: cursor list complete; cache key lists sorted, duplicate-free and
           parallel to the object lists; every cached unit / entry / abbreviation table / line program is
-          the pure parse at its key; the first cached entry of a unit is its top entry; every entry object
-          is the one its unit's cache holds for its offset (identity); every set _parent / _terminator
+          the pure parse at its key; the first cached entry of a unit is its top entry; every unit and entry
+          object is the one the cache holds for its offset (identity); every set _parent / _terminator
           link points to the object of the true parent / closing null entry; every memo field, when set,
           equals the pure result.  [frames_rel F s afs] ties live generator frames to iterator positions.
-
-   PROVED for every operation except entry-tree navigation (get_parent and the resumption of
-   iter_children / iter_siblings / iter_DIEs generators): theorems named *_partial carry the hypothesis
-   [plain_ok] = valid query of the file, outside the known finding, not a navigation step.
-   The FULL statement is the same with [op_ok] in place of [plain_ok]; what is missing is the proof that
-   CompileUnit.iter_DIE_children / DIE._search_ancestor_offspring (model: children_next, children_drain,
-   search_loop, subtree_next, siblings_next) keep [Inv] and agree with [achildren_next] / [asubtree_next].
-   The invariant already states the link clauses those proofs need; the navigation operations are pinned
-   by the bounded-exhaustive correspondence of tools/harness/c10.py only. *)
+   Domain [wf_file F] (units tile .debug_info, entry trees tile their units, DW_AT_sibling truthful, tables
+          present), [fuel_ok F fuel] (the fuel of the model's loops exceeds the size bound of the file, so
+          fuel never runs out), [op_ok F o] = [valid_op F o] (offset-exact lookups name the start of a
+          unit / entry, indices are inside their tables) and outside the known finding. *)
 From PV Require Import Model.C10Types Model.C10Machine Spec.C10Spec.
-From PV Require Import Proofs.C10Base Proofs.C10Units Proofs.C10Final.
+From PV Require Import Proofs.C10Base Proofs.C10Units Proofs.C10Nav3 Proofs.C10Final.
+From Coq Require Import String.
 From Coq Require Import ZArith List Bool.
 Import ListNotations.
 Open Scope Z_scope.
@@ -72,50 +69,63 @@ Theorem C10_entry_cache_transparent : forall F, wf_file F = true -> forall fuel,
 Proof. exact get_cached_DIE_ok. Qed.
 Print Assumptions C10_entry_cache_transparent.
 
-(* ---- one step of the machine refines one step of the reference machine and keeps the invariant *)
-Theorem C10_step_refines_partial : forall F, wf_file F = true -> forall fuel, fuel_ok F fuel = true ->
-  forall s afs o, Inv F s -> frames_rel F s afs -> plain_ok F afs o = true ->
+(* ---- get_parent: the ancestor search with its side effects on _parent / _terminator links returns the
+   object of the true parent *)
+Theorem C10_get_parent : forall F, wf_file F = true -> forall fuel, (length (f_units F) < fuel)%nat ->
+  (forall ud, In ud (f_units F) -> (2 * nav_fuel (ud_tree ud) < fuel)%nat) ->
+  forall s self u o e, Inv F s -> die_at s self u o -> entry_at F u o = Some e ->
+  exists s' r, get_parent (parsers_of F) fuel self s = (s', Ok r) /\ Inv F s' /\ ext s s' /\
+    match en_parent e with
+    | Some po => exists pid, r = Some pid /\ die_at s' pid u po
+    | None => r = None
+    end.
+Proof. exact get_parent_ok. Qed.
+Print Assumptions C10_get_parent.
+
+(* ---- one step of the machine refines one step of the reference machine and keeps the invariant:
+   EVERY operation (queries, navigation, generator creation and resumption, stream repositioning) *)
+Theorem C10_step_refines : forall F, wf_file F = true -> forall fuel, fuel_ok F fuel = true ->
+  forall s afs o, Inv F s -> frames_rel F s afs -> op_ok F o = true ->
   snd (step (parsers_of F) fuel s o) = snd (spec_step F afs o) /\
   Inv F (fst (step (parsers_of F) fuel s o)) /\
   frames_rel F (fst (step (parsers_of F) fuel s o)) (fst (spec_step F afs o)).
-Proof. exact step_refines_plain. Qed.
-Print Assumptions C10_step_refines_partial.
+Proof. exact step_refines. Qed.
+Print Assumptions C10_step_refines.
 
 (* ---- ... lifted to every finite history, from any state that satisfies the invariant *)
-Theorem C10_history_refines_partial : forall F, wf_file F = true -> forall fuel, fuel_ok F fuel = true ->
-  forall h s afs, Inv F s -> frames_rel F s afs -> hist_ok F (plain_ok F) afs h = true ->
+Theorem C10_history_refines : forall F, wf_file F = true -> forall fuel, fuel_ok F fuel = true ->
+  forall h s afs, Inv F s -> frames_rel F s afs -> forallb (op_ok F) h = true ->
   snd (run (parsers_of F) fuel s h) = snd (spec_run F afs h) /\
   Inv F (fst (run (parsers_of F) fuel s h)) /\
   frames_rel F (fst (run (parsers_of F) fuel s h)) (fst (spec_run F afs h)).
-Proof. exact history_refines_plain. Qed.
-Print Assumptions C10_history_refines_partial.
+Proof. exact history_refines. Qed.
+Print Assumptions C10_history_refines.
 
 (* ---- ... in particular from a freshly opened object: the answers of a history are those of the
    reference machine, which has no caches and no cursors *)
-Theorem C10_history_independent_partial : forall F, wf_file F = true -> forall fuel, fuel_ok F fuel = true ->
-  forall n h, hist_ok F (plain_ok F) (repeat AFEmpty n) h = true ->
+Theorem C10_history_independent : forall F, wf_file F = true -> forall fuel, fuel_ok F fuel = true ->
+  forall n h, forallb (op_ok F) h = true ->
   snd (run (parsers_of F) fuel (init_state n) h) = snd (spec_run F (repeat AFEmpty n) h).
-Proof. exact history_independent_plain. Qed.
-Print Assumptions C10_history_independent_partial.
+Proof. exact history_independent. Qed.
+Print Assumptions C10_history_independent.
 
 (* ---- a query asked after ANY history returns the stateless answer, which is also what a freshly
    opened object returns *)
-Theorem C10_query_after_history_partial : forall F, wf_file F = true -> forall fuel, fuel_ok F fuel = true ->
-  forall n h o, hist_ok F (plain_ok F) (repeat AFEmpty n) h = true -> is_query o = true ->
-  plain_ok F (fst (spec_run F (repeat AFEmpty n) h)) o = true ->
+Theorem C10_query_after_history : forall F, wf_file F = true -> forall fuel, fuel_ok F fuel = true ->
+  forall n h o, forallb (op_ok F) (h ++ [o]) = true -> is_query o = true ->
   snd (step (parsers_of F) fuel (fst (run (parsers_of F) fuel (init_state n) h)) o) = query_spec F o /\
   snd (step (parsers_of F) fuel (init_state n) o) = query_spec F o.
 Proof. exact query_after_history. Qed.
-Print Assumptions C10_query_after_history_partial.
+Print Assumptions C10_query_after_history.
 
 (* ---- repeated identical queries return equal results, whatever happens in between *)
-Theorem C10_repeated_queries_equal_partial : forall F, wf_file F = true -> forall fuel, fuel_ok F fuel = true ->
-  forall n h1 h2 o, hist_ok F (plain_ok F) (repeat AFEmpty n) (h1 ++ o :: h2 ++ [o]) = true -> is_query o = true ->
+Theorem C10_repeated_queries_equal : forall F, wf_file F = true -> forall fuel, fuel_ok F fuel = true ->
+  forall n h1 h2 o, forallb (op_ok F) (h1 ++ o :: h2 ++ [o]) = true -> is_query o = true ->
   let s1 := fst (run (parsers_of F) fuel (init_state n) h1) in
   let s2 := fst (run (parsers_of F) fuel (init_state n) (h1 ++ o :: h2)) in
   snd (step (parsers_of F) fuel s1 o) = snd (step (parsers_of F) fuel s2 o).
 Proof. exact repeated_queries_equal. Qed.
-Print Assumptions C10_repeated_queries_equal_partial.
+Print Assumptions C10_repeated_queries_equal.
 
 (* ---- sequential iteration and random access agree entry for entry: the element a generator yields
    next is the answer of the offset / index query for that position, in every reachable state *)
@@ -124,6 +134,22 @@ Theorem C10_iter_CUs_agrees : forall F, wf_file F = true -> forall fuel, fuel_ok
   valid_op F (CUAt off) = true /\ snd (step (parsers_of F) fuel s (Next slot)) = query_spec F (CUAt off).
 Proof. exact iter_CUs_agrees. Qed.
 Print Assumptions C10_iter_CUs_agrees.
+
+Theorem C10_iter_children_agrees : forall F, wf_file F = true -> forall fuel, fuel_ok F fuel = true ->
+  forall s afs slot u acf ud acf' c, Inv F s -> frames_rel F s afs ->
+  nth slot afs AFEmpty = AFChildren u acf -> unit_at F u = Some ud ->
+  achildren_next (ud_entries ud) acf = (acf', Some c) ->
+  snd (step (parsers_of F) fuel s (Next slot)) = query_spec F (DIEAt u c).
+Proof. exact iter_children_agrees. Qed.
+Print Assumptions C10_iter_children_agrees.
+
+Theorem C10_iter_DIEs_agrees : forall F, wf_file F = true -> forall fuel, fuel_ok F fuel = true ->
+  forall s afs slot u ast ud ast' d, Inv F s -> frames_rel F s afs ->
+  nth slot afs AFEmpty = AFSubtree u ast -> unit_at F u = Some ud ->
+  asubtree_next (ud_entries ud) ast = Some (ast', Some d) ->
+  snd (step (parsers_of F) fuel s (Next slot)) = query_spec F (DIEAt u d).
+Proof. exact iter_DIEs_agrees. Qed.
+Print Assumptions C10_iter_DIEs_agrees.
 
 Theorem C10_iter_sections_agrees : forall F, wf_file F = true -> forall fuel, fuel_ok F fuel = true ->
   forall s afs slot i, Inv F s -> frames_rel F s afs -> nth slot afs AFEmpty = AFSections i ->
@@ -146,7 +172,8 @@ Print Assumptions C10_iter_tags_agrees.
 (* ---- the known finding (key lineprogram-header-file_entry-grows-after-get_entries): at full strength
    the property is FALSE of the faithful model — LineProgram.get_entries() appends one entry per
    DW_LNE_define_file to the shared header, so LineProg answers differently after LineEntries.  The
-   theorems above exclude exactly this: [op_ok] demands [no_define_file F] for the operation LineProg only *)
+   theorems above exclude exactly this: [op_ok] demands [no_define_file F] for the operation LineProg only
+   (and only that: every other operation on such a file, LineEntries included, is covered) *)
 Theorem C10_lineprog_file_entry_refuted :
   exists F fuel h o, wf_file F = true /\ fuel_ok F fuel = true /\ forallb (valid_op F) (h ++ [o]) = true /\
     is_query o = true /\
@@ -157,28 +184,33 @@ Print Assumptions C10_lineprog_file_entry_refuted.
 
 (* ---- non-vacuity: the hypotheses are satisfiable by a file with a unit of six entries, a line program,
    call-frame information, sections, a symbol and dynamic tags, and by a history that interleaves unit,
-   entry, reference, line-program, CFI and ELF queries with stream repositioning and four live generators *)
+   entry, parent, reference, line-program, CFI and ELF queries with stream repositioning and live
+   generators of every kind, partially consumed *)
 Example C10_ex_wf : wf_file ex_file = true /\ wf_file ex_file0 = true /\ fuel_ok ex_file 40 = true /\
                     fuel_ok ex_file0 40 = true /\ no_define_file ex_file0 = true /\ no_define_file ex_file = false.
 Proof. vm_compute. repeat split. Qed.
 
 Definition ex_history : list op :=
-  [DIEAt 0 20; Disturb 1 7; CUAt 0; DIEAt 0 15; DIEAt 0 20; Disturb 1 0; TopDIE 0; CUContaining 17; DIEGlobal 22;
-   FollowRef 0 11 0; FollowRef 0 11 1; LineEntries 0; LineProg 0; LineEntries 0; CFI false; Disturb 0 3;
+  [DIEAt 0 20; Disturb 1 7; Parent 0 20; CUAt 0; DIEAt 0 15; Parent 0 22; DIEAt 0 20; Disturb 1 0; TopDIE 0;
+   CUContaining 17; DIEGlobal 22; Parent 0 11; FollowRef 0 11 0; FollowRef 0 11 1; LineEntries 0; LineProg 0;
+   LineEntries 0; CFI false; Disturb 0 3;
    NewIterCUs 0; NewIterSections 1; Next 0; Next 1; ESectionByName 2; Next 1; Next 0; Next 1;
    NewIterSymbols 0; NewIterTags 1; Next 0; Next 1; ESymbolByName 3; EGetTag 1; Next 1; EGetTag 2; ENumTags; Next 1;
-   ESection 1; ESegment 0; ESymbol 0; EString 0; ENumSections; NewIterDIEs 0 0; NewIterChildren 1 0 11;
-   NewIterSiblings 1 0 15; DIEAt 0 18].
+   ESection 1; ESegment 0; ESymbol 0; EString 0; ENumSections;
+   NewIterDIEs 0 0; NewIterChildren 1 0 11; Next 0; Next 1; Next 0; Disturb 1 2; Next 0; Next 1; Next 0; Next 1;
+   NewIterSiblings 1 0 15; Next 0; Next 1; Next 0; Next 1; Next 0; Next 0;
+   NewIterSiblings 0 0 11; Next 0; NewIterChildren 0 0 22; Next 0; Parent 0 23; Parent 0 15; DIEAt 0 18].
 
-Example C10_ex_history_ok : hist_ok ex_file0 (plain_ok ex_file0) (repeat AFEmpty 2) ex_history = true /\
+Example C10_ex_history_ok : forallb (op_ok ex_file0) ex_history = true /\
   snd (run (parsers_of ex_file0) 40 (init_state 2) ex_history) = snd (spec_run ex_file0 (repeat AFEmpty 2) ex_history) /\
-  nth 9 (snd (run (parsers_of ex_file0) 40 (init_state 2) ex_history)) ANone = ADie 0 20 5 /\
-  nth 12 (snd (run (parsers_of ex_file0) 40 (init_state 2) ex_history)) ANone = AVals [200; 1].
+  nth 2 (snd (run (parsers_of ex_file0) 40 (init_state 2) ex_history)) ANone = ADie 0 18 3 /\
+  nth 15 (snd (run (parsers_of ex_file0) 40 (init_state 2) ex_history)) ANone = AVals [200; 1] /\
+  nth 60 (snd (run (parsers_of ex_file0) 40 (init_state 2) ex_history)) ANone = AErr (EPy "RuntimeError").
 Proof. vm_compute. repeat split. Qed.
 
 (* the same history without LineProg is inside the theorem's domain on the file WITH DW_LNE_define_file *)
 Example C10_ex_history_ok_define_file :
-  hist_ok ex_file (plain_ok ex_file) (repeat AFEmpty 2) (filter (fun o => match o with LineProg _ => false | _ => true end) ex_history) = true.
+  forallb (op_ok ex_file) (filter (fun o => match o with LineProg _ => false | _ => true end) ex_history) = true.
 Proof. vm_compute. reflexivity. Qed.
 
 Example C10_ex_iter_agrees :
